@@ -17,6 +17,8 @@ META = {
         "by several objects with independent per-provider valuations (conjunction); a second instance of "
         "the same class with its own and with a shared listener driven in between (cross-instance "
         "isolation, checked on object identity of self and machine in every callback). "
+        ""
+        "value-object listeners (equal or unhashable), the add_observer alias, per-instance hooks, the second instance checked on its own log, repeated evaluation of token-carrying guards judged, plus a probe with callback names that are events on one provider (own event / another machine as listener). "
         "distinct_nontrivial = distinct (provider distribution pattern of names with >=2 providers, "
         "attachment multiplicities, late-listener positions, engine) observed."
     ),
